@@ -25,7 +25,7 @@
    The game-end defect repaired by fixes/C16-player-placeholder-game-end.patch is
    [stale_after_game_end_unfixed_refuted]. *)
 From Common Require Import Prelude.
-From C16 Require Import Model Lemmas.
+From C16 Require Import Model Lemmas Cond CondLemmas Multi MultiLemmas.
 Open Scope Z_scope.
 
 (* MPF's walk with the translated tables computes Python's value, for every supported expression,
@@ -223,3 +223,108 @@ Theorem stale_after_game_end_unfixed_refuted :
     last (snd (hfinal k d e (en, subscribe_now k d en e) cs)) = OVal (VInt 77).
 Proof. exact stale_after_game_end_unfixed_refuted_ex. Qed.
 Print Assumptions stale_after_game_end_unfixed_refuted.
+
+(* ==== conditional event handlers: add_handler("event{condition}") on plain / boolean / relay / queue events ====
+   (EventManager._run_handlers and _run_handlers_sequential; model: Cond.crun over the sorted handler list)
+
+   "A conditional handler never acts on a stale value": for EVERY event type, handler list, state and kwargs,
+   every handler that gets its turn is called iff its condition has a true value under Python's semantics
+   ([verdict]: py_eval over the handler's merged kwargs) ON THE STATE OF ITS OWN TURN ... *)
+Theorem conditional_handler_acts_on_current_value :
+  forall ty hs en kw t, forallb handler_supported hs = true ->
+    In t (crun ty en kw hs) -> t_dec t = verdict t.
+Proof. exact crun_verdict. Qed.
+Print Assumptions conditional_handler_acts_on_current_value.
+
+(* ... and the state / kwargs of a handler's turn are the posted ones after EVERYTHING that happened in the turns
+   before it: the writes of every earlier handler that ran, the changes made while an earlier handler held the
+   queue (queue.wait() ... queue.clear()), the kwargs replaced by earlier relay handlers. *)
+Theorem handler_turn_sees_all_earlier_effects :
+  forall ty hs en kw ts1 t ts2, crun ty en kw hs = ts1 ++ t :: ts2 ->
+    t_env t = apply_changes en (flat_map (turn_effects ty) ts1) /\
+    t_kw t = fold_left (turn_kwargs ty) ts1 kw.
+Proof. exact crun_turn_state. Qed.
+Print Assumptions handler_turn_sees_all_earlier_effects.
+Example conditional_handler_sat :
+  cond_run (TQueue, w_env, [], [mkH 1 1 (Some w_cond) [] [] RNothing None;
+                                mkH 0 10 None [] [] RNothing (Some [CSetMachine w_a (VInt 0)])])
+  = ([(0, [None; None; None; None])], false).
+Proof. exact ex_cond_run. Qed.
+Print Assumptions conditional_handler_sat.
+
+(* the turns follow the registered (sorted) list without gaps; nobody is passed over unless a boolean event was
+   stopped by a handler returning False (or an evaluation raised) *)
+Theorem handlers_take_turns_in_list_order :
+  forall ty hs en kw, map t_h (crun ty en kw hs) = firstn (length (crun ty en kw hs)) hs.
+Proof. exact crun_order. Qed.
+Print Assumptions handlers_take_turns_in_list_order.
+Theorem no_handler_passed_over :
+  forall ty hs en kw,
+    forallb (fun t => match t_dec t with DRun => negb (stops ty (t_h t)) | DSkip => true | _ => false end)
+            (crun ty en kw hs) = true ->
+    map t_h (crun ty en kw hs) = hs.
+Proof. exact crun_complete. Qed.
+Print Assumptions no_handler_passed_over.
+Theorem registered_handlers_sorted_by_priority :
+  forall hs, prio_sorted (sort_handlers hs) = true.
+Proof. exact sort_handlers_sorted. Qed.
+Print Assumptions registered_handlers_sorted_by_priority.
+
+(* the forbidden dispatcher (all conditions decided when the event is posted, handlers called afterwards) is a
+   different function: a queue handler holds the queue while machine.a goes 1 -> 0; {machine.a == 1} must not run *)
+Theorem conditions_decided_at_post_time_refuted :
+  exists ty en kw hs, forallb handler_supported hs = true /\
+    map (fun t => h_id (t_h t)) (filter (fun t => cdec_eqb (t_dec t) DRun) (crun ty en kw hs)) = [0] /\
+    map (fun t => h_id (t_h t)) (filter (fun t => cdec_eqb (t_dec t) DRun) (crun_snapshot ty en en kw kw hs)) = [0; 1].
+Proof. exists TQueue, w_env, [], w_handlers. exact snapshot_refuted_ex. Qed.
+Print Assumptions conditions_decided_at_post_time_refuted.
+
+(* ==== several condition-driven config-player entries at the same time (Multi.v) ======================
+   registering, starting, cancelling or unloading OTHER entries (mode stop, unload_player_events) never changes
+   what an entry holds: the state of the whole population is the concatenation of the single-entry runs *)
+Theorem entries_do_not_interact :
+  forall k d ss en ms1 m ms2,
+    snd (mfinal k d (en, ms1 ++ m :: ms2) ss) =
+    snd (mfinal k d (en, ms1) ss) ++ snd (mfinal k d (en, [m]) ss) ++ snd (mfinal k d (en, ms2) ss).
+Proof. exact entries_independent_l. Qed.
+Print Assumptions entries_do_not_interact.
+
+(* FULL statement: after any interleaving of changes with entries being registered and cancelled, EVERY living
+   entry holds the value its template has now.  As for a single subscriber it is false for unannounced changes
+   ([stale_after_unannounced_change_refuted]); proved under the same guard ... *)
+Theorem no_stale_value_every_living_entry_partial :
+  forall k d ss en ms,
+    forallb (fun m => supported (ms_expr m)) ms = true ->
+    forallb (fun m => negb (ms_alive m)) ms = true ->
+    mhonest en ss = true ->
+    let st := mfinal k d (en, ms) ss in
+    forall m, In m (snd st) -> ms_alive m = true ->
+      (forall v, last (ms_sub m) <> OVal v)
+      \/ fst (evaluate_and_subscribe k d (fst st) (ms_expr m)) = last (ms_sub m)
+      \/ (forall v, fst (evaluate_and_subscribe k d (fst st) (ms_expr m)) <> OVal v).
+Proof. exact no_stale_entries_l. Qed.
+Print Assumptions no_stale_value_every_living_entry_partial.
+
+(* ... and without any guard on the history for int / str valued stores *)
+Theorem no_stale_value_every_living_entry_plain :
+  forall k d ss en ms,
+    forallb (fun m => supported (ms_expr m)) ms = true ->
+    forallb (fun m => negb (ms_alive m)) ms = true ->
+    plain_store en = true -> mplain ss = true ->
+    let st := mfinal k d (en, ms) ss in
+    forall m, In m (snd st) -> ms_alive m = true ->
+      (forall v, last (ms_sub m) <> OVal v)
+      \/ fst (evaluate_and_subscribe k d (fst st) (ms_expr m)) = last (ms_sub m)
+      \/ (forall v, fst (evaluate_and_subscribe k d (fst st) (ms_expr m)) <> OVal v).
+Proof. exact no_stale_entries_plain_l. Qed.
+Print Assumptions no_stale_value_every_living_entry_plain.
+Example no_stale_value_every_living_entry_sat :
+  multi_run (mx_env, mx_entries, mx_steps)
+  = [[(0, Some (true, OVal (VBool false))); (1, None)];
+     [(0, Some (false, OVal (VBool false))); (1, Some (true, OVal (VBool false)))];
+     [(0, Some (true, OVal (VBool false))); (1, Some (true, OVal (VBool true)))];
+     [(0, Some (false, OVal (VBool false))); (1, None)];
+     [(0, Some (true, OVal (VBool true))); (1, None)]]
+  /\ mplain mx_steps = true /\ plain_store mx_env = true.
+Proof. exact ex_multi. Qed.
+Print Assumptions no_stale_value_every_living_entry_sat.
